@@ -6,5 +6,6 @@ set -e
 cd "$(dirname "$0")"
 /venv/bin/python -c "import pymbolic, numpy, immutabledict, pytools; print('pymbolic from', pymbolic.__file__)"
 gcc --version | head -1
+g++ --version | head -1 || echo "g++ missing: C14 programs with complex constants are not compiled"
 mkdir -p evidence replays build
 echo setup ok
